@@ -574,6 +574,22 @@ pub fn oracle_one(c: &[u64]) -> Vec<String> {
                 _ => {}
             }
         }
+        // "clamped by min size", with the ratio transferring a min-size given on one axis to the other (the ratio relates the
+        // sides of the box that box-sizing designates: transfer first, then padding+border for content-box): whatever else
+        // happens (the known finding only ever enlarges the height), the box is never smaller than that on either axis
+        if rt > 0.0 && rt.is_finite() {
+            for ax in 0..2 {
+                if let Some(l) = mn[ax].map(|v| v + bsa[ax]) {
+                    if l.is_finite() && size[ax] < l - 1e-3 * (1.0 + l.abs()) {
+                        fails.push(format!(
+                            "aspect ratio {rt}: {} {} is below the min size {l} (min-size with the ratio transferring the given axis)",
+                            ["width", "height"][ax],
+                            size[ax]
+                        ));
+                    }
+                }
+            }
+        }
     }
     // what the measure function was given / returned
     let known = Size { width: opt(r[22], r[23]), height: opt(r[24], r[25]) };
